@@ -8,8 +8,7 @@ by inspection is the vocabulary table below (a dozen symbols) and nothing else.
 
 Vocabulary (z3 symbol -> Lean term), all over ℤ:
   +, -, *, numerals            the same
-  div, mod (SMT-LIB: Euclidean) Int `/`, `%`  (Lean 4 core: `Int.div`/`Int.emod` conventions T-rounding? no: `/` and `%` on Int
-                               are `Int.div`... in Lean 4 Mathlib `Int./` is `Int.ediv`/`Int.emod`, Euclidean - identical)
+  div, mod (SMT-LIB: Euclidean) `/`, `%` on ℤ (Lean 4: `Int.ediv` / `Int.emod`, also Euclidean - the same functions)
   powmod(x,e,m)                x ^ e.toNat % m       (every schema guards e >= 0)
   isprime(p)                   Nat.Prime p.toNat
   abstract curve group         any `AddCommGroup G`:  ed_add -> +, ed_mul(n,P) -> n • P, ed_neg -> -, ed_O -> 0,
@@ -30,9 +29,9 @@ SIG = {
     "ed_mul_zero": "P", "ed_mul_step": "iP", "ed_mul_mod": "iP", "ed_insub_def": "P", "ed_insub_add": "PP", "ed_insub_mul": "iP",
     "ed_insub_O": "", "ed_prime_order": "iP", "ed_ladder_diff": "iP", "ed_add_zero": "P", "ed_add_comm": "PP", "ed_neg_mul": "P",
     "ed_neg_def": "P", "ed_mul_one": "P", "ed_mul_mul": "iiP", "ed_mul_O": "i", "ed_neg_O": "", "ed_insub_neg": "P",
-    "ed_same_y": "PP", "ed_xrecover_complete": "iP",
+    "ed_same_y": "PP", "ed_xrecover_complete": "iP", "ed_enc_injective": "PP",
 }
-COORD = {"ed_same_y", "ed_ladder_diff", "ed_xrecover_complete"}      # need the concrete curve (G := Curve)
+COORD = {"ed_same_y", "ed_ladder_diff", "ed_xrecover_complete", "ed_enc_injective"}      # need the concrete curve (G := Curve)
 VARNAMES = {"i": ["a", "b", "c", "e"], "P": ["P", "R", "T"], "E": ["G0", "M", "N"], "g": ["gid"]}
 
 
@@ -197,14 +196,32 @@ if __name__ == "__main__":
     print("-- errors:", e)
 
 
-def assemble(repo=None, proofs=True):
-    """the complete Lean text of the bridge: Edwards text (header, generated mirror of the real functions, proofs, group law),
-    Algebra.lean (imports merged, audit section dropped), the generated statements, lean/SpakeTheory/BridgeProofs.lean"""
+def assemble(repo=None, proofs=True, part="curve"):
+    """the complete Lean text of one of the two bridge files:
+    part="abstract": Algebra.lean (audit section dropped) + the generated statements that need no curve + BridgeProofsAbstract.lean
+                     - independent of /repo's sources;
+    part="curve":    Edwards text (header, generated mirror of the real functions, proofs, group law) + Algebra.lean + ALL generated
+                     statements + BridgeProofsAbstract.lean + BridgeProofsCurve.lean"""
     import os, re
     from . import leanback
+    D = leanback.LEAN_DIR
+    alg = open(os.path.join(D, "Algebra.lean")).read().split("/-! Axiom audit")[0]
+    hdr, abstract, coord, errors = generate()
+    strip = lambda t: re.sub(r"^import .*$", "", t, flags=re.M)
+    # the primality hypotheses of the statements (hL, hQ) are themselves Lean theorems: Primes text generated from the Pratt
+    # certificates (pyvc/leanprimes.py), then two closing theorems
+    from . import leanprimes
+    primes = leanprimes.generate()
+    close_L = "\n/-! closing: the hypothesis `hL` of every statement is a theorem -/\ntheorem Bridge.Lc_prime : Nat.Prime Lc := by unfold Lc; exact prime_L\n"
+    close_Q = "theorem Bridge.Q_prime : Fact (Nat.Prime Q) := ⟨by unfold Q; exact prime_Q⟩\n"
+    if part == "abstract":
+        imports = sorted(set(re.findall(r"^import .*$", alg + "\n" + primes, re.M)))
+        text = "\n".join(imports) + "\nset_option linter.unusedVariables false\n" + strip(primes) + "\n" + strip(alg) + "\n" + hdr + abstract + "end Bridge\n"
+        if proofs:
+            text += "\n" + open(os.path.join(D, "BridgeProofsAbstract.lean")).read() + close_L
+        return text, {k: v for k, v in errors.items() if k not in COORD}
     from .repo import oracle, Oracle, Repo
     repo = repo or Repo()
-    D = leanback.LEAN_DIR
     vals = {}
     for n in ("d", "I", "Q"):
         r = oracle().req(op="global", module="spake2.ed25519_basic", name=n)
@@ -212,13 +229,9 @@ def assemble(repo=None, proofs=True):
     gen, gerrors = leanback.generate_defs(repo, vals)
     ed = open(os.path.join(D, "EdwardsHeader.lean")).read() + "\n" + gen + "\n" + open(os.path.join(D, "EdwardsProofs.lean")).read() + "\n" \
         + open(os.path.join(D, "EdwardsExtra.lean")).read() + "\n" + open(os.path.join(D, "EdwardsGroup.lean")).read()
-    alg = open(os.path.join(D, "Algebra.lean")).read()
-    alg = alg.split("/-! Axiom audit")[0]
-    imports = sorted(set(re.findall(r"^import .*$", ed + "\n" + alg, re.M)))
-    strip = lambda t: re.sub(r"^import .*$", "", t, flags=re.M)
-    hdr, abstract, coord, errors = generate()
-    text = "\n".join(imports) + "\n" + strip(ed) + "\n" + strip(alg) + "\n" + hdr + abstract + coord + "end Bridge\n"
+    imports = sorted(set(re.findall(r"^import .*$", ed + "\n" + alg + "\n" + primes, re.M)))
+    text = "\n".join(imports) + "\n" + strip(ed) + "\n" + strip(primes) + "\n" + strip(alg) + "\n" + hdr + abstract + coord + "end Bridge\n"
     if proofs:
-        text += "\n" + open(os.path.join(D, "BridgeProofs.lean")).read()
+        text += "\n" + open(os.path.join(D, "BridgeProofsAbstract.lean")).read() + "\n" + open(os.path.join(D, "BridgeProofsCurve.lean")).read() + close_L + close_Q
     errors.update({"gen:" + k: v for k, v in gerrors.items()})
     return text, errors
